@@ -72,6 +72,9 @@ func (o Op) String() string {
 	case "range", "filo", "fifo":
 		return fmt.Sprintf("%s(stop=%d)", o.Kind, o.Stop)
 	}
+	if o.Key < 0 {
+		return fmt.Sprintf("%s(LRU entry)", o.Kind)
+	}
 	return fmt.Sprintf("%s(k%d)", o.Kind, o.Key)
 }
 
@@ -124,17 +127,17 @@ const (
 )
 
 type plan struct {
-	kind      int
-	cause     string // for planMustFail / planLenient
-	evicted   bool   // put: return value
-	evictions int    // put: number of evicted entries
-	replaced  bool   // put: key was resident
-	resized   bool   // put: key was resident with another size
-	hit       bool   // get / delete: key resident
-	v         *val   // get / delete: the value
-	next      []ent  // state after the operation (planOK)
-	allowEvict bool  // lenient: LRU-end evictions are acceptable
-	newEnt    *ent   // lenient: the entry a successful put would insert
+	kind       int
+	cause      string // for planMustFail / planLenient
+	evicted    bool   // put: return value
+	evictions  int    // put: number of evicted entries
+	replaced   bool   // put: key was resident
+	resized    bool   // put: key was resident with another size
+	hit        bool   // get / delete: key resident
+	v          *val   // get / delete: the value
+	next       []ent  // state after the operation (planOK)
+	allowEvict bool   // lenient: LRU-end evictions are acceptable
+	newEnt     *ent   // lenient: the entry a successful put would insert
 }
 
 func without(l []ent, i int) []ent {
